@@ -2,6 +2,7 @@
 CONSTANTS
   MaxPath = 1
   NFlowsA = 0
+  SymLits <- SymNone
   MaxFlows = 2
   FlowDomain <- FlowsB1
   TxnDomain <- TxnsB
